@@ -603,7 +603,7 @@ func propC12() *PropSpec {
 func propC13() *PropSpec {
 	return &PropSpec{
 		ID:          "C13",
-		Rule:        "one case = one feasible path and cooperative schedule: (a) every entry point (Minify, Bytes, String, Reader, Writer) on a registry whose minifier re-enters the registry (MinifyMimetype, Minify, Match, Bytes), with sync.RWMutex modelled so that a write lock under a held read lock is a reported deadlock; (b) Match/Bytes calls issued while another call is in flight on another modelled goroutine; (c) option structs of all six minifiers unchanged by calls with and without the inline parameter, repeated calls and a fresh struct give the same bytes; non-trivial = completes with a distinct symbolic output",
+		Rule:        "one case = one feasible path and cooperative schedule: (a) every entry point (Minify, Bytes, String, Reader, Writer) on a registry whose minifier re-enters the registry (MinifyMimetype, Minify, Match, Bytes), with sync.RWMutex modelled so that a write lock under a held read lock is a reported deadlock; (b) Match/Bytes calls issued while another call is in flight on another modelled goroutine; (c) option structs of all six minifiers unchanged by calls with and without the inline parameter, repeated calls and a fresh struct give the same bytes; (d) one call of each minifier / registry entry point under the write-set monitor: no store to memory that existed before the call; (e) a result handed out stays what it was while later calls run (sync.Pool as a LIFO free list); non-trivial = completes with a distinct symbolic output",
 		Assumptions: []string{"goroutines are coroutines that switch at the blocking points of the modelled io.Pipe / WaitGroup / RWMutex", "sequential sufficient conditions stand in for the schedule quantifier: no write lock inside a call, no store to any memory cell or map that existed before the call (write-set monitor of the engine: package-level state, option struct, registry; the caller's input buffer and the synchronisation models excepted), byte-identical repeated results"},
 		Outside:     []string{"real preemptive interleavings, the race detector, GOMAXPROCS, cross-process repeatability: not reachable by symbolic execution of the code (stated; not replaced by another technique)", "the write-set monitor exists only in the engine: its violations are engine-only (natively the clause is vacuous)", "reads of shared state that another call writes are covered only through the no-write clause (if nobody writes there is nothing to race with)"},
 		Stubs:       []string{"sync.RWMutex: readers/writer model", "io.Pipe, sync.WaitGroup models of C12"},
